@@ -184,47 +184,115 @@ def real_strides(c):
     return ["ret", iarr(out), farr(fz), farr(uz)]
 
 
+def _shape(rng, hmax=7, wmax=7):
+    """raster shape classes: empty (0 rows / 0 columns), single row / column / cell, general"""
+    k = rng.random()
+    if k < 0.06:
+        return rng.choice([(0, 0), (0, rng.randint(1, 4)), (rng.randint(1, 4), 0)])
+    if k < 0.16:
+        return 1, rng.randint(1, wmax)
+    if k < 0.26:
+        return rng.randint(1, hmax), 1
+    return rng.randint(1, hmax), rng.randint(1, wmax)
+
+
+def _box(rng, h, w):
+    """a target window; each raster border is touched or not with probability 1/2"""
+    def axis(n):
+        lo = 0 if (rng.random() < 0.5 or n == 1) else rng.randrange(1, n)
+        hi = n - 1 if (rng.random() < 0.5 or lo >= n - 1) else rng.randrange(lo, n - 1)
+        return lo, hi
+    return axis(h) + axis(w)
+
+
+def _scan_grid(rng, h, w, hit_vals, miss_vals):
+    """h x w grid for the four scans: hits inside a box touching a random subset of the borders / a single hit
+    (corners included) / no hit / only hits / random"""
+    if h == 0 or w == 0:
+        return np.zeros((h, w), dtype=np.float64), "empty-raster"
+    hit_vals, miss_vals = hit_vals or miss_vals, miss_vals or hit_vals
+    mode = rng.choice(["box", "box", "box", "single", "none", "all", "random"])
+    g = np.array([rng.choice(miss_vals) for _ in range(h * w)], dtype=np.float64).reshape(h, w)
+    if mode == "all":
+        g = np.array([rng.choice(hit_vals) for _ in range(h * w)], dtype=np.float64).reshape(h, w)
+    elif mode == "random":
+        g = np.array([rng.choice(hit_vals + miss_vals) for _ in range(h * w)], dtype=np.float64).reshape(h, w)
+    elif mode == "single":
+        y = rng.choice([0, h - 1, rng.randrange(h)])
+        x = rng.choice([0, w - 1, rng.randrange(w)])
+        g[y, x] = rng.choice(hit_vals)
+    elif mode == "box":
+        t, b, l, r = _box(rng, h, w)
+        cells = {(t, rng.randrange(l, r + 1)), (b, rng.randrange(l, r + 1)),
+                 (rng.randrange(t, b + 1), l), (rng.randrange(t, b + 1), r)}
+        for y in range(t, b + 1):
+            for x in range(l, r + 1):
+                if rng.random() < 0.25:
+                    cells.add((y, x))
+        for (y, x) in cells:
+            g[y, x] = rng.choice(hit_vals)
+    return g, mode
+
+
+def _shape_class(h, w):
+    return "0xN" if h == 0 or w == 0 else "1x1" if h * w == 1 else "1xN" if h == 1 else "Nx1" if w == 1 else "HxW"
+
+
+TRIM_POOL = [NAN, 0.0, -0.0, 1.0, 2.0, INF, -INF, -1.5, 0.5]
+TRIM_LISTS = [[NAN], [NAN], [0.0], [NAN, 0.0], [], [1.0, NAN], [INF, 0.0, NAN], [2.0], [NAN, NAN], [0.0, 0.0, 1.0],
+              [-INF], [-0.0], [0.5, -1.5], [7.0], [0.0, 1.0, 2.0, INF, -INF, NAN, -1.5, 0.5], [1.0, 0.0, NAN, 2.0]]
+
+
 def gen_trim(rng):
-    pool = [NAN, 0.0, 0.0, 1.0, 2.0, INF, -1.5]
-    kind = rng.random()
-    data = grid(rng, pool, 5, 5)
-    if kind < 0.35:                       # mostly excluded values with a few kept cells
-        data[:] = rng.choice([NAN, 0.0])
-        for _ in range(rng.randint(0, 3)):
-            data[rng.randrange(data.shape[0]), rng.randrange(data.shape[1])] = rng.choice([1.0, 2.0, INF])
-    ex = rng.choice([[NAN], [0.0], [NAN, 0.0], [], [1.0, NAN], [INF, 0.0, NAN], [2.0]])
-    return dict(data=data.tolist(), ex=ex)
+    ex = rng.choice(TRIM_LISTS)
+    def listed(v):
+        return any(e == v or (e != e and v != v) for e in ex)
+    miss = [v for v in TRIM_POOL if listed(v)]
+    hit = [v for v in TRIM_POOL if not listed(v)]
+    h, w = _shape(rng)
+    g, mode = _scan_grid(rng, h, w, hit, miss)
+    return dict(data=g.tolist(), shape=[h, w], ex=ex, tags=[f"shape:{_shape_class(h, w)}", f"mode:{mode}",
+                                                            f"list:{len(ex)}"])
+
+
+def _data(c):
+    a = np.array(c["data"], dtype=np.float64)
+    return a.reshape(c["shape"]) if "shape" in c else a
 
 
 def line_trim(c):
-    return f"af.data={farr(c['data'])} af.excludes={farr(c['ex'])}"
+    return f"af.data={farr(_data(c))} af.excludes={farr(c['ex'])}"
 
 
 def real_trim(c):
     f = mod("xrspatial.zonal")._trim
-    data, ex = np.array(c["data"], dtype=np.float64), np.array(c["ex"], dtype=np.float64)
+    data, ex = _data(c), np.array(c["ex"], dtype=np.float64)
     t = f(data, ex)
     return ["ret"] + [str(int(v)) for v in t] + [farr(data), farr(ex)]
 
 
+CROP_POOL = [0.0, -0.0, 1.0, 2.0, 3.0, NAN, INF, 5.0, -1.0]
+CROP_LISTS = [[1.0], [2.0, 1.0], [3.0], [1.0, 2.0, 3.0], [5.0], [], [0.0], [NAN], [3.0, 1.0], [INF], [NAN, 1.0],
+              [-0.0], [7.0], [1.0, 1.0], [-1.0, 0.0], [9.0, NAN, 2.0]]
+
+
 def gen_crop(rng):
-    pool = [0.0, 0.0, 1.0, 2.0, 3.0, NAN]
-    data = grid(rng, pool, 5, 5)
-    if rng.random() < 0.3:
-        data[:] = 0.0
-        for _ in range(rng.randint(0, 3)):
-            data[rng.randrange(data.shape[0]), rng.randrange(data.shape[1])] = rng.choice([1.0, 2.0, 3.0])
-    vals = rng.choice([[1.0], [2.0, 1.0], [3.0], [1.0, 2.0, 3.0], [5.0], [], [0.0], [NAN], [3.0, 1.0]])
-    return dict(data=data.tolist(), values=vals)
+    vals = rng.choice(CROP_LISTS)
+    hit = [v for v in CROP_POOL if any(e == v for e in vals)]
+    miss = [v for v in CROP_POOL if not any(e == v for e in vals)]
+    h, w = _shape(rng)
+    g, mode = _scan_grid(rng, h, w, hit, miss)
+    return dict(data=g.tolist(), shape=[h, w], values=vals, tags=[f"shape:{_shape_class(h, w)}", f"mode:{mode}",
+                                                                  f"list:{len(vals)}"])
 
 
 def line_crop(c):
-    return f"af.data={farr(c['data'])} af.values={farr(c['values'])}"
+    return f"af.data={farr(_data(c))} af.values={farr(c['values'])}"
 
 
 def real_crop(c):
     f = mod("xrspatial.zonal")._crop
-    data, vals = np.array(c["data"], dtype=np.float64), np.array(c["values"], dtype=np.float64)
+    data, vals = _data(c), np.array(c["values"], dtype=np.float64)
     t = f(data, vals)
     return ["ret"] + [str(int(v)) for v in t] + [farr(data), farr(vals)]
 
@@ -802,8 +870,13 @@ def stream(r, progs, n, driver=None):
         replies = driver.ask(lines)
         for c, rv, rep in zip(cases, reals, replies):
             key = dict(prog=prog, case=c)
+<<<<<<< HEAD
             tags = [f"il:{prog}"] + ([f"il:{prog}:{c['cls']}"] if isinstance(c, dict) and "cls" in c else [])
             r.case(key, desc=f"il:{prog} {str(c)[:120]}", nontrivial=True, tags=tags)
+=======
+            r.case(key, desc=f"il:{prog} {str(c)[:120]}", nontrivial=True,
+                   tags=[f"il:{prog}"] + [f"il:{prog}:{t}" for t in (c.get("tags", []) if isinstance(c, dict) else [])])
+>>>>>>> wip3/trim
             if rv[0] == "skip":
                 continue
             if rv[0] == "err":
